@@ -5,7 +5,7 @@ use crate::c10::*;
 
 /// Test generated for harness `c10::c10_w0_kernels_vec_n2` 
 ///
-/// Check for `assertion`: ""ts_vregx_resid_mean: every output slot written""
+/// Check for `assertion`: ""ts_vmin: every output slot written""
 ///
 /// # Warning
 ///
@@ -19,7 +19,7 @@ use crate::c10::*;
 /// logic.
 
 #[test]
-fn kani_concrete_playback_c10_w0_kernels_vec_n2_4624583475394349740() {
+fn kani_concrete_playback_c10_w0_kernels_vec_n2_1666748175245777184() {
     let concrete_vals: Vec<Vec<u8>> = vec![
         // 0
         vec![0],
@@ -37,8 +37,8 @@ fn kani_concrete_playback_c10_w0_kernels_vec_n2_4624583475394349740() {
         vec![0, 0, 0, 0, 0, 0, 0, 0],
         // 0
         vec![0],
-        // 6
-        vec![6],
+        // 0
+        vec![0],
     ];
     kani::concrete_playback_run(concrete_vals, c10_w0_kernels_vec_n2);
 }
@@ -79,86 +79,6 @@ fn kani_concrete_playback_c10_w0_kernels_vec_n2_293579557810759936() {
         vec![0],
         // 5
         vec![5],
-    ];
-    kani::concrete_playback_run(concrete_vals, c10_w0_kernels_vec_n2);
-}
-
-/// Test generated for harness `c10::c10_w0_kernels_vec_n2` 
-///
-/// Check for `assertion`: ""ts_vargmax: every output slot written""
-///
-/// # Warning
-///
-/// Concrete playback tests combined with stubs or contracts is highly
-/// experimental, and subject to change.
-///
-/// The original harness has stubs which are not applied to this test.
-/// This may cause a mismatch of non-deterministic values if the stub
-/// creates any non-deterministic value.
-/// The execution path may also differ, which can be used to refine the stub
-/// logic.
-
-#[test]
-fn kani_concrete_playback_c10_w0_kernels_vec_n2_2996444275664490113() {
-    let concrete_vals: Vec<Vec<u8>> = vec![
-        // 0
-        vec![0],
-        // 0
-        vec![0],
-        // 0
-        vec![0],
-        // 0
-        vec![0],
-        // 0
-        vec![0],
-        // 0
-        vec![0],
-        // 0ul
-        vec![0, 0, 0, 0, 0, 0, 0, 0],
-        // 0
-        vec![0],
-        // 3
-        vec![3],
-    ];
-    kani::concrete_playback_run(concrete_vals, c10_w0_kernels_vec_n2);
-}
-
-/// Test generated for harness `c10::c10_w0_kernels_vec_n2` 
-///
-/// Check for `assertion`: ""ts_vmin: every output slot written""
-///
-/// # Warning
-///
-/// Concrete playback tests combined with stubs or contracts is highly
-/// experimental, and subject to change.
-///
-/// The original harness has stubs which are not applied to this test.
-/// This may cause a mismatch of non-deterministic values if the stub
-/// creates any non-deterministic value.
-/// The execution path may also differ, which can be used to refine the stub
-/// logic.
-
-#[test]
-fn kani_concrete_playback_c10_w0_kernels_vec_n2_1666748175245777184() {
-    let concrete_vals: Vec<Vec<u8>> = vec![
-        // 0
-        vec![0],
-        // 0
-        vec![0],
-        // 0
-        vec![0],
-        // 0
-        vec![0],
-        // 0
-        vec![0],
-        // 0
-        vec![0],
-        // 0ul
-        vec![0, 0, 0, 0, 0, 0, 0, 0],
-        // 0
-        vec![0],
-        // 0
-        vec![0],
     ];
     kani::concrete_playback_run(concrete_vals, c10_w0_kernels_vec_n2);
 }
@@ -209,6 +129,46 @@ fn kani_concrete_playback_c10_w0_kernels_vec_n2_4628911148827062515() {
 
 /// Test generated for harness `c10::c10_w0_kernels_vec_n2` 
 ///
+/// Check for `assertion`: ""ts_vregx_resid_mean: every output slot written""
+///
+/// # Warning
+///
+/// Concrete playback tests combined with stubs or contracts is highly
+/// experimental, and subject to change.
+///
+/// The original harness has stubs which are not applied to this test.
+/// This may cause a mismatch of non-deterministic values if the stub
+/// creates any non-deterministic value.
+/// The execution path may also differ, which can be used to refine the stub
+/// logic.
+
+#[test]
+fn kani_concrete_playback_c10_w0_kernels_vec_n2_4624583475394349740() {
+    let concrete_vals: Vec<Vec<u8>> = vec![
+        // 0
+        vec![0],
+        // 0
+        vec![0],
+        // 0
+        vec![0],
+        // 0
+        vec![0],
+        // 0
+        vec![0],
+        // 0
+        vec![0],
+        // 0ul
+        vec![0, 0, 0, 0, 0, 0, 0, 0],
+        // 0
+        vec![0],
+        // 6
+        vec![6],
+    ];
+    kani::concrete_playback_run(concrete_vals, c10_w0_kernels_vec_n2);
+}
+
+/// Test generated for harness `c10::c10_w0_kernels_vec_n2` 
+///
 /// Check for `assertion`: ""ts_vmax: every output slot written""
 ///
 /// # Warning
@@ -243,6 +203,46 @@ fn kani_concrete_playback_c10_w0_kernels_vec_n2_11789063242589858262() {
         vec![0],
         // 1
         vec![1],
+    ];
+    kani::concrete_playback_run(concrete_vals, c10_w0_kernels_vec_n2);
+}
+
+/// Test generated for harness `c10::c10_w0_kernels_vec_n2` 
+///
+/// Check for `assertion`: ""ts_vargmin: every output slot written""
+///
+/// # Warning
+///
+/// Concrete playback tests combined with stubs or contracts is highly
+/// experimental, and subject to change.
+///
+/// The original harness has stubs which are not applied to this test.
+/// This may cause a mismatch of non-deterministic values if the stub
+/// creates any non-deterministic value.
+/// The execution path may also differ, which can be used to refine the stub
+/// logic.
+
+#[test]
+fn kani_concrete_playback_c10_w0_kernels_vec_n2_18119097354352582048() {
+    let concrete_vals: Vec<Vec<u8>> = vec![
+        // 0
+        vec![0],
+        // 0
+        vec![0],
+        // 0
+        vec![0],
+        // 0
+        vec![0],
+        // 0
+        vec![0],
+        // 0
+        vec![0],
+        // 0ul
+        vec![0, 0, 0, 0, 0, 0, 0, 0],
+        // 0
+        vec![0],
+        // 2
+        vec![2],
     ];
     kani::concrete_playback_run(concrete_vals, c10_w0_kernels_vec_n2);
 }
@@ -333,7 +333,7 @@ fn kani_concrete_playback_c10_w0_kernels_vec_n2_17120887310259896199() {
 
 /// Test generated for harness `c10::c10_w0_kernels_vec_n2` 
 ///
-/// Check for `assertion`: ""ts_vargmin: every output slot written""
+/// Check for `assertion`: ""ts_vargmax: every output slot written""
 ///
 /// # Warning
 ///
@@ -347,7 +347,7 @@ fn kani_concrete_playback_c10_w0_kernels_vec_n2_17120887310259896199() {
 /// logic.
 
 #[test]
-fn kani_concrete_playback_c10_w0_kernels_vec_n2_18119097354352582048() {
+fn kani_concrete_playback_c10_w0_kernels_vec_n2_2996444275664490113() {
     let concrete_vals: Vec<Vec<u8>> = vec![
         // 0
         vec![0],
@@ -365,8 +365,8 @@ fn kani_concrete_playback_c10_w0_kernels_vec_n2_18119097354352582048() {
         vec![0, 0, 0, 0, 0, 0, 0, 0],
         // 0
         vec![0],
-        // 2
-        vec![2],
+        // 3
+        vec![3],
     ];
     kani::concrete_playback_run(concrete_vals, c10_w0_kernels_vec_n2);
 }
